@@ -45,6 +45,9 @@ fn crate_reads(writer: &str, label: &str, bytes: &[u8], sk: Sk, expected: &[Val]
 		match verdict {
 			None => {
 				cover.count(&format!("crate_reads_ok(writer={writer})"), 1);
+				if expected.iter().any(|v| v.max_collection_len() > 1000) {
+					cover.count(&format!("crate_reads_ok_of_collections_gt_1000_elements(writer={writer})"), 1);
+				}
 				if let Some(m) = &obs.meta {
 					let got: BTreeMap<String, Vec<u8>> = m.iter().filter(|(k, _)| !k.starts_with("avro.")).cloned().collect();
 					if &got != expected_user {
@@ -147,6 +150,25 @@ fn w_specs(thorough: bool) -> Vec<FileSpec> {
 				}
 			}
 		}
+		// growing / shrinking-then-growing incompressible blocks (encoder buffers kept from earlier blocks)
+		let b = |s: usize| Op::Big { s, inc: true };
+		for lvl in if codec == Codec::Zstd { vec![0u8, 1, 22] } else { vec![0u8] } {
+			v.push(FileSpec { codec, level: lvl, sk: Sk::Bytes, abs: 64 * 1024, ops: vec![b(10), Op::F, b(600), Op::F, b(5000), Op::F, b(70000)], meta: 0 });
+			v.push(FileSpec { codec, level: lvl, sk: Sk::Str, abs: 0, ops: vec![Op::S, b(600), b(10), b(5000)], meta: 0 });
+			v.push(FileSpec { codec, level: lvl, sk: Sk::Bytes, abs: 64 * 1024, ops: vec![b(5000), Op::F, b(10), Op::F, Op::PBig { s: 70000, inc: true }], meta: 4 });
+		}
+		// values holding arrays / maps of 0, 1, 1000, 1001, ~5000 elements
+		for sk in Sk::COLL {
+			for n in if thorough { vec![0usize, 1, 999, 1000, 1001, 1002, 5000, 20000] } else { vec![0usize, 1, 1000, 1001, 5000] } {
+				v.push(FileSpec { codec, level: 0, sk, abs: 64 * 1024, ops: vec![Op::S, Op::Coll { n, map: false, push: false }, Op::S], meta: 0 });
+				if n >= 1000 {
+					v.push(FileSpec { codec, level: 0, sk, abs: 0, ops: vec![Op::Coll { n, map: true, push: false }, Op::Coll { n: 1, map: false, push: true }], meta: 4 });
+				}
+			}
+			for ops in [vec![], vec![Op::S], vec![Op::S, Op::P], vec![Op::P, Op::F, Op::S]] {
+				v.push(FileSpec { codec, level: 0, sk, abs: 2, ops, meta: 2 });
+			}
+		}
 		if codec.has_levels() {
 			for level in [1u8, 9, 200] {
 				v.push(FileSpec { codec, level, sk: Sk::Rec, abs: 3000, ops: vec![Op::S, Op::Run { s: 9000, inc: true }, Op::P], meta: 2 });
@@ -165,8 +187,35 @@ fn apache_val(v: &apache_avro::types::Value) -> Option<Val> {
 		A::Null => Val::Null,
 		A::Record(fs) => match fs.as_slice() {
 			[(a, A::Long(n)), (b, A::String(s))] if a == "a" && b == "b" => Val::Rec(*n, s.clone()),
+			[(a, A::Array(xs)), (b, A::Map(m))] if a == "xs" && b == "m" => {
+				let mut ints = Vec::new();
+				for x in xs {
+					match x {
+						A::Int(n) => ints.push(*n),
+						_ => return None,
+					}
+				}
+				let mut mm = BTreeMap::new();
+				for (k, v) in m {
+					match v {
+						A::String(s) => mm.insert(k.clone(), s.clone()),
+						_ => return None,
+					};
+				}
+				Val::Coll(ints, mm)
+			}
 			_ => return None,
 		},
+		A::Array(xs) => {
+			let mut longs = Vec::new();
+			for x in xs {
+				match x {
+					A::Long(n) => longs.push(*n),
+					_ => return None,
+				}
+			}
+			Val::Arr(longs)
+		}
 		_ => return None,
 	})
 }
@@ -179,6 +228,8 @@ fn to_apache(v: &Val) -> apache_avro::types::Value {
 		Val::Str(s) => A::String(s.clone()),
 		Val::Null => A::Null,
 		Val::Rec(a, b) => A::Record(vec![("a".into(), A::Long(*a)), ("b".into(), A::String(b.clone()))]),
+		Val::Arr(xs) => A::Array(xs.iter().map(|n| A::Long(*n)).collect()),
+		Val::Coll(xs, m) => A::Record(vec![("xs".into(), A::Array(xs.iter().map(|n| A::Int(*n)).collect())), ("m".into(), A::Map(m.iter().map(|(k, v)| (k.clone(), A::String(v.clone()))).collect()))]),
 	}
 }
 
@@ -335,6 +386,9 @@ pub struct Foreign {
 	pub meta_keys: Vec<String>,
 	pub meta_blocks: Vec<usize>,
 	pub meta_sized: bool,
+	/// collection schemas: (elements per value, items per array/map block (0 = one block), negative counts + byte sizes, map as large as the array)
+	#[serde(default)]
+	pub coll: Option<(usize, usize, bool, bool)>,
 }
 
 impl Foreign {
@@ -345,9 +399,10 @@ impl Foreign {
 			if self.meta_keys.iter().any(|k| k == "avro.codec") { "present" } else { "absent" },
 			self.sk.label(),
 			self.blocks,
-			match self.big {
-				Some((s, inc)) => format!(" datums of {s} bytes ({})", if inc { "incompressible" } else { "compressible" }),
-				None => format!(" values #{}..", self.off),
+			match (self.big, self.coll) {
+				(Some((s, inc)), _) => format!(" datums of {s} bytes ({})", if inc { "incompressible" } else { "compressible" }),
+				(_, Some((n, chunk, sized, map))) => format!(" each value holds {n} elements{} written as {}{}", if map { " (map too)" } else { "" }, if chunk == 0 { "one block".to_owned() } else { format!("blocks of {chunk} items") }, if sized { " with negative counts + byte sizes" } else { "" }),
+				_ => format!(" values #{}..", self.off),
 			},
 			self.meta_keys,
 			self.meta_blocks,
@@ -357,9 +412,10 @@ impl Foreign {
 	fn values(&self) -> Vec<Val> {
 		let n: usize = self.blocks.iter().sum();
 		(0..n)
-			.map(|i| match self.big {
-				Some((s, inc)) => c05::big_val(self.sk, s, inc, 77 + i as u64).expect("representable size"),
-				None => small_val(self.sk, self.off + i),
+			.map(|i| match (self.big, self.coll) {
+				(Some((s, inc)), _) => c05::big_val(self.sk, s, inc, 77 + i as u64).expect("representable size"),
+				(_, Some((n, _, _, map))) => c05::coll_val(self.sk, n, map, 500 + i as u64).expect("collection schema"),
+				_ => small_val(self.sk, self.off + i),
 			})
 			.collect()
 	}
@@ -394,7 +450,10 @@ fn assemble(f: &Foreign, cache: &mut CompressCache) -> (Vec<u8>, Vec<Val>, Vec<(
 	for &n in &f.blocks {
 		let mut data = Vec::new();
 		for v in &vals[i..i + n] {
-			enc(v, &mut data);
+			match f.coll {
+				Some((_, chunk, sized, _)) => c05::enc_layout(v, chunk, sized, &mut data),
+				None => enc(v, &mut data),
+			}
 		}
 		i += n;
 		blocks.push((n as u64, data.len()));
@@ -481,8 +540,24 @@ fn r_files(codec: Codec, with_codec_key: bool, sk: Sk, thorough: bool) -> Vec<Fo
 	let mut v = Vec::new();
 	let base: Vec<String> = if with_codec_key { vec!["avro.schema".into(), "avro.codec".into()] } else { vec!["avro.schema".into()] };
 	let extras: [&[&str]; 3] = [&[], &["k"], &["k", "avro.extra"]];
+	// R4: collection schemas: arrays / maps of 0, 1, 1000, 1001, ~5000 elements in every block layout
+	if sk.is_coll() {
+		let ns: Vec<usize> = if thorough { vec![0, 1, 999, 1000, 1001, 1002, 5000, 20000] } else { vec![0, 1, 1000, 1001, 5000] };
+		for n in ns {
+			for (chunk, sized) in [(0usize, false), (0, true), (400, false), (1000, true), (1, true)] {
+				for map in [false, true] {
+					if map && (sk == Sk::ArrLong || n < 1000) {
+						continue;
+					}
+					for part in [vec![1usize], vec![1, 1], vec![1, 0, 1]] {
+						v.push(Foreign { codec, sk, off: 0, blocks: part, big: None, meta_keys: base.clone(), meta_blocks: vec![base.len()], meta_sized: false, coll: Some((n, chunk, sized, map)) });
+					}
+				}
+			}
+		}
+	}
 	// R1: every partition x a few metadata variants
-	let max_n = if thorough { 6 } else { 4 };
+	let max_n = if sk.is_coll() { 2 } else if thorough { 6 } else { 4 };
 	let offs: &[usize] = if thorough { &[0, 3] } else { &[0] };
 	let mut few: Vec<(Vec<String>, Vec<usize>, bool)> = Vec::new();
 	few.push((base.clone(), vec![base.len()], false));
@@ -499,7 +574,7 @@ fn r_files(codec: Codec, with_codec_key: bool, sk: Sk, thorough: bool) -> Vec<Fo
 		for part in partitions(n) {
 			for &off in offs {
 				for (keys, mb, sized) in &few {
-					v.push(Foreign { codec, sk, off, blocks: part.clone(), big: None, meta_keys: keys.clone(), meta_blocks: mb.clone(), meta_sized: *sized });
+					v.push(Foreign { codec, sk, off, blocks: part.clone(), big: None, meta_keys: keys.clone(), meta_blocks: mb.clone(), meta_sized: *sized, coll: None });
 				}
 			}
 		}
@@ -512,7 +587,7 @@ fn r_files(codec: Codec, with_codec_key: bool, sk: Sk, thorough: bool) -> Vec<Fo
 			keys.extend(ex.iter().map(|s| s.to_string()));
 			for (order, mb, sized) in meta_variants(&keys, true) {
 				for part in &parts {
-					v.push(Foreign { codec, sk, off: 1, blocks: part.clone(), big: None, meta_keys: order.clone(), meta_blocks: mb.clone(), meta_sized: sized });
+					v.push(Foreign { codec, sk, off: 1, blocks: part.clone(), big: None, meta_keys: order.clone(), meta_blocks: mb.clone(), meta_sized: sized, coll: None });
 				}
 			}
 		}
@@ -522,7 +597,7 @@ fn r_files(codec: Codec, with_codec_key: bool, sk: Sk, thorough: bool) -> Vec<Fo
 		let sizes: &[(usize, bool)] = if thorough { &[(8192, true), (8192, false), (40000, true), (40000, false), (70000, true), (140000, false)] } else { &[(8192, false), (40000, true)] };
 		for &(s, inc) in sizes {
 			for part in [vec![1], vec![1, 2], vec![2, 0, 1]] {
-				v.push(Foreign { codec, sk, off: 0, blocks: part, big: Some((s, inc)), meta_keys: base.clone(), meta_blocks: vec![base.len()], meta_sized: false });
+				v.push(Foreign { codec, sk, off: 0, blocks: part, big: Some((s, inc)), meta_keys: base.clone(), meta_blocks: vec![base.len()], meta_sized: false, coll: None });
 			}
 		}
 	}
@@ -572,6 +647,11 @@ fn run_r(f: &Foreign, cache: &mut CompressCache, cover: &mut Cover, out: &mut Ve
 	if f.big.is_some() {
 		cover.count("R_files_with_large_blocks", 1);
 	}
+	if let Some((n, chunk, _, _)) = f.coll {
+		if n > 1000 && chunk != 0 {
+			cover.count("R_files_collections_gt_1000_elements_in_several_blocks", 1);
+		}
+	}
 	if f.meta_keys.len() == 4 && f.meta_keys[0] == "avro.extra" && f.meta_keys[3] == "avro.schema" && f.blocks == [1, 0, 1] && f.codec == Codec::Snappy && f.sk == Sk::Long && f.meta_sized && f.meta_blocks.len() == 2 && f.meta_blocks[0] == 1 {
 		cover.sample(json!({"part": "R", "file": label, "hex": truncate(&hex(&bytes), 400)}));
 	}
@@ -592,6 +672,9 @@ pub struct ApacheFile {
 	pub blocks: Vec<usize>,
 	pub big: Option<(usize, bool)>,
 	pub user: u8,
+	/// collection schemas: elements per value
+	#[serde(default)]
+	pub coll: Option<usize>,
 }
 
 fn apache_codec(c: Codec) -> apache_avro::Codec {
@@ -617,9 +700,10 @@ fn apache_write(a: &ApacheFile) -> Out<(Vec<u8>, Vec<Val>, Vec<(String, Vec<u8>)
 		let mut i = 0usize;
 		for &n in &a.blocks {
 			for _ in 0..n {
-				let v = match a.big {
-					Some((s, inc)) => c05::big_val(a.sk, s, inc, 99 + i as u64).ok_or("size")?,
-					None => small_val(a.sk, a.off + i),
+				let v = match (a.big, a.coll) {
+					(Some((s, inc)), _) => c05::big_val(a.sk, s, inc, 99 + i as u64).ok_or("size")?,
+					(_, Some(n)) => c05::coll_val(a.sk, n, n % 2 == 1, 900 + i as u64).ok_or("collection")?,
+					_ => small_val(a.sk, a.off + i),
 				};
 				w.append(to_apache(&v)).map_err(|e| format!("append: {e}"))?;
 				vals.push(v);
@@ -635,17 +719,24 @@ fn apache_write(a: &ApacheFile) -> Out<(Vec<u8>, Vec<Val>, Vec<(String, Vec<u8>)
 fn a_files() -> Vec<ApacheFile> {
 	let mut v = Vec::new();
 	for codec in Codec::ALL {
+		for sk in Sk::COLL {
+			for n in [0usize, 1, 1000, 1001, 5000] {
+				for part in [vec![1usize], vec![2, 1]] {
+					v.push(ApacheFile { codec, sk, off: 0, blocks: part, big: None, user: 0, coll: Some(n) });
+				}
+			}
+		}
 		for sk in Sk::ALL {
 			for n in 0..=4usize {
 				for part in compositions(n) {
 					for user in [0u8, 2, 4] {
-						v.push(ApacheFile { codec, sk, off: 0, blocks: part.clone(), big: None, user });
+						v.push(ApacheFile { codec, sk, off: 0, blocks: part.clone(), big: None, user, coll: None });
 					}
 				}
 			}
 			if matches!(sk, Sk::Bytes | Sk::Str | Sk::Rec) {
 				for (s, inc) in [(8192usize, false), (40000, true), (140000, false)] {
-					v.push(ApacheFile { codec, sk, off: 0, blocks: vec![1, 2], big: Some((s, inc)), user: 2 });
+					v.push(ApacheFile { codec, sk, off: 0, blocks: vec![1, 2], big: Some((s, inc)), user: 2, coll: None });
 				}
 			}
 		}
@@ -654,7 +745,7 @@ fn a_files() -> Vec<ApacheFile> {
 }
 
 fn run_a(a: &ApacheFile, cover: &mut Cover, out: &mut Vec<Violation>, verbose: bool) {
-	let label = format!("codec={} schema={} values per block {:?}{} user_metadata=#{}", a.codec.name(), a.sk.label(), a.blocks, a.big.map(|(s, i)| format!(" datums of {s} bytes ({})", if i { "incompressible" } else { "compressible" })).unwrap_or_default(), a.user);
+	let label = format!("codec={} schema={} values per block {:?}{}{} user_metadata=#{}", a.codec.name(), a.sk.label(), a.blocks, a.big.map(|(s, i)| format!(" datums of {s} bytes ({})", if i { "incompressible" } else { "compressible" })).unwrap_or_default(), a.coll.map(|n| format!(" each value holds {n} elements")).unwrap_or_default(), a.user);
 	let replay = json!({"check": "C06", "part": "A", "file": a});
 	cover.evaluations += 1;
 	let (bytes, vals, user) = match apache_write(a) {
@@ -684,7 +775,7 @@ fn run_a(a: &ApacheFile, cover: &mut Cover, out: &mut Vec<Violation>, verbose: b
 pub fn run(rep: &mut Report) {
 	let thorough = rep.thorough();
 	rep.rule = format!(
-		"SAE. W (writer side): files written by the crate (sync marker pinned) for ALL operation sequences of length <= {} over {{serialize, push_serialized(2), finish_block}} x 6 codecs x 5 schemas x (approx_block_size 2 x 6 user-metadata variants [none, empty map, {{k:v}} as strings, {{a.b:0xff}}, 3 keys, non-ASCII + reserved-prefix key] + approx_block_size 0 / 64 Ki), plus multi-block files with blocks of 8-70 KB and non-default levels, plus, for every codec, INCOMPRESSIBLE (xorshift) blocks whose stored size exceeds 32 KiB, 64 KiB and 128 KiB (the encoder's start buffer and its doublings) built from one big datum, from 48-140 noisy datums of 1000 bytes, and from runs of small datums, in [S,X,S] and [X,finish,X]; each taken apart by the independent parser: magic, metadata keys exactly avro.schema/avro.codec/user keys, avro.schema = schema.json() and JSON-equal to the source, avro.codec = specification name, user values intact, header sync = given marker = every block's sync, per-block count/size consistent with the datums, codec framing removed by independent decoders (libflate raw deflate, snap + big-endian CRC-32 of the uncompressed data, streaming bzip2/xz, zstd), values equal; then read back (values + user metadata) by the crate through slice / &[u8] BufRead / BufReader{}. R (reader side): files assembled by the independent writer: value sequences of 0..={} datums x ALL compositions into blocks, each also with one 0-object block at every position, x 6 codecs (+ null with avro.codec ABSENT) x 5 schemas x 4 metadata variants; ALL orders of <= 4 metadata keys (avro.schema, avro.codec, k, avro.extra) x map layouts (one block / one key per block / 1+rest / rest+1) x positive or negative(+byte size) counts x partitions {}; blocks of 8 KB-{} KB; read by the crate (3 reader kinds): values, end of stream twice, user metadata (non-reserved keys).{} Non-trivial: non-null codec, or >= 2 blocks, or user metadata / non-default metadata layout; distinct files.",
+		"SAE. W (writer side): files written by the crate (sync marker pinned) for ALL operation sequences of length <= {} over {{serialize, push_serialized(2), finish_block}} x 6 codecs x 5 schemas x (approx_block_size 2 x 6 user-metadata variants [none, empty map, {{k:v}} as strings, {{a.b:0xff}}, 3 keys, non-ASCII + reserved-prefix key] + approx_block_size 0 / 64 Ki), plus multi-block files with blocks of 8-70 KB and non-default levels, plus, for every codec, INCOMPRESSIBLE (xorshift) blocks whose stored size exceeds 32 KiB, 64 KiB and 128 KiB (the encoder's start buffer and its doublings) built from one big datum, from 48-140 noisy datums of 1000 bytes, and from runs of small datums, in [S,X,S] and [X,finish,X], plus growing / shrinking-then-growing incompressible blocks (10/600/5000/70000 bytes; zstandard at levels default/1/22), plus schemas array<long> and record{{xs:array<int>,m:map<string>}} with values of 0/1/1000/1001/5000 elements; each taken apart by the independent parser: magic, metadata keys exactly avro.schema/avro.codec/user keys, avro.schema = schema.json() and JSON-equal to the source, avro.codec = specification name, user values intact, header sync = given marker = every block's sync, per-block count/size consistent with the datums, codec framing removed by independent decoders (libflate raw deflate, snap + big-endian CRC-32 of the uncompressed data, streaming bzip2/xz, zstd), values equal; then read back (values + user metadata) by the crate through slice / &[u8] BufRead / BufReader{}. R (reader side): files assembled by the independent writer: value sequences of 0..={} datums x ALL compositions into blocks, each also with one 0-object block at every position, x 6 codecs (+ null with avro.codec ABSENT) x 5 schemas x 4 metadata variants; ALL orders of <= 4 metadata keys (avro.schema, avro.codec, k, avro.extra) x map layouts (one block / one key per block / 1+rest / rest+1) x positive or negative(+byte size) counts x partitions {}; blocks of 8 KB-{} KB; collection schemas with 0/1/1000/1001/5000 elements per value whose arrays/maps are written as one block, blocks of 400, 1000 (negative counts + byte sizes) or 1 item; read by the crate (3 reader kinds): values, end of stream twice, user metadata (non-reserved keys).{} Non-trivial: non-null codec, or >= 2 blocks, or user metadata / non-default metadata layout; distinct files.",
 		if thorough { 4 } else { 3 },
 		if thorough { "; every file (except zero-byte-datum files, which apache-avro refuses) is also read by apache-avro 0.17 (values and user metadata)" } else { "" },
 		if thorough { 6 } else { 4 },
@@ -714,9 +805,9 @@ pub fn run(rep: &mut Report) {
 	// R
 	let mut units: Vec<(Codec, bool, Sk)> = Vec::new();
 	for codec in Codec::ALL {
-		for sk in Sk::ALL {
+		for sk in Sk::ALL.into_iter().chain(Sk::COLL) {
 			units.push((codec, true, sk));
-			if codec == Codec::Null {
+			if codec == Codec::Null && !sk.is_coll() {
 				units.push((codec, false, sk));
 			}
 		}
@@ -766,9 +857,9 @@ pub fn run(rep: &mut Report) {
 		}
 	}
 	rep.extra.insert("violation_signatures".into(), json!(per_sig.iter().map(|(k, n)| json!({"signature": k, "cases": n})).collect::<Vec<_>>()));
-	let mut guards = vec!["W_files_written", "W_files_with_block_stored_gt_8KiB", "crate_reads_ok(writer=crate)", "crate_reads_ok(writer=reference(vmodel))", "R_files", "R_files_without_avro.codec", "R_files_metadata_negative_count_blocks", "R_files_metadata_in_several_map_blocks", "R_files_4_metadata_keys", "R_files_with_a_block_of_0_objects", "R_files_with_large_blocks"];
+	let mut guards = vec!["W_files_written", "W_files_with_block_stored_gt_8KiB", "crate_reads_ok(writer=crate)", "crate_reads_ok(writer=reference(vmodel))", "R_files", "R_files_without_avro.codec", "R_files_metadata_negative_count_blocks", "R_files_metadata_in_several_map_blocks", "R_files_4_metadata_keys", "R_files_with_a_block_of_0_objects", "R_files_with_large_blocks", "R_files_collections_gt_1000_elements_in_several_blocks", "crate_reads_ok_of_collections_gt_1000_elements(writer=crate)", "crate_reads_ok_of_collections_gt_1000_elements(writer=reference(vmodel))"];
 	if thorough {
-		guards.extend(["W_files_read_back_by_apache_avro", "A_files(apache-avro writer)", "crate_reads_ok(writer=apache-avro)"]);
+		guards.extend(["W_files_read_back_by_apache_avro", "A_files(apache-avro writer)", "crate_reads_ok(writer=apache-avro)", "crate_reads_ok_of_collections_gt_1000_elements(writer=apache-avro)"]);
 	}
 	let per_codec: Vec<String> = Codec::ALL.iter().flat_map(|c| ["32KiB", "64KiB", "128KiB"].into_iter().map(move |t| format!("W_blocks_stored_gt_{t}(codec={})", c.name()))).collect();
 	guards.extend(per_codec.iter().map(|s| s.as_str()));
